@@ -416,9 +416,13 @@ enum HOp {
     AddEmpty,
     Abandon,
     Extended,
+    /// a clone of the handle is made while the modifiers are pending and used for a Delete
+    /// first (which must not carry them), then the handle itself does a Compare (which must)
+    CompareAfterCloneDelete,
 }
 
-const HOPS: [HOp; 9] = [HOp::Bind, HOp::SearchOk, HOp::SearchBadFilter, HOp::StreamEntriesOnly, HOp::Compare, HOp::SilentCompare, HOp::AddEmpty, HOp::Abandon, HOp::Extended];
+const HOPS: [HOp; 10] =
+    [HOp::Bind, HOp::SearchOk, HOp::SearchBadFilter, HOp::StreamEntriesOnly, HOp::Compare, HOp::SilentCompare, HOp::AddEmpty, HOp::Abandon, HOp::Extended, HOp::CompareAfterCloneDelete];
 
 fn is_search(o: HOp) -> bool {
     matches!(o, HOp::SearchOk | HOp::StreamEntriesOnly)
@@ -474,6 +478,13 @@ fn judge_history(rep: &Reporter, seq: &[(HOp, u8)], evals: &AtomicU64) {
                         HOp::AddEmpty => ldap.add(&marker, vec![("cn", HashSet::<&str>::new())]).await.map(|_| ()).map_err(|e| e.to_string()),
                         HOp::Abandon => ldap.abandon(77).await.map_err(|e| e.to_string()),
                         HOp::Extended => ldap.extended(Exop { name: Some(marker.clone()), val: None }).await.map(|_| ()).map_err(|e| e.to_string()),
+                        HOp::CompareAfterCloneDelete => {
+                            let mut c = ldap.clone();
+                            match c.delete(&format!("{}c", marker)).await {
+                                Ok(_) => ldap.compare(&marker, "a", "v").await.map(|_| ()).map_err(|e| e.to_string()),
+                                Err(e) => Err(format!("clone: {}", e)),
+                            }
+                        }
                     }
                 };
                 let res = match tokio::time::timeout(Duration::from_secs(3600), fut).await {
@@ -548,6 +559,18 @@ fn judge_history(rep: &Reporter, seq: &[(HOp, u8)], evals: &AtomicU64) {
         } else {
             m
         };
+        if *op == HOp::CompareAfterCloneDelete {
+            match find(&format!("{}c", marker)).last() {
+                Some(cm) if cm.controls.is_none() => {}
+                other => {
+                    rep.violation(
+                        "modifier:inherited-by-clone",
+                        &format!("history {:?}: step {}: the Delete issued on a clone made while modifiers were pending was sent as {:?} (expected no controls)", seq, k, other),
+                        replay(),
+                    );
+                }
+            }
+        }
         let want_ctl = if mods & 1 != 0 { Some(vec![Ctl { oid: b"1.2.3".to_vec(), crit: Some(true), val: Some(vec![k as u8]) }]) } else { None };
         if m.controls != want_ctl {
             rep.violation(
@@ -606,10 +629,18 @@ pub fn run(tier: Tier) -> i32 {
     lens.extend(65480..=65560);
     // sizes between and beyond the classic boundaries (buffer and chunk sizes, powers of two, odd sizes)
     lens.extend([511usize, 512, 513, 1000, 1023, 1024, 1025, 2047, 2048, 4095, 4096, 4097, 5000, 8191, 8192, 8193, 10000, 16383, 16384, 16385, 20000, 32767, 32768, 32769, 40000, 100000, 131072, 1 << 20]);
+    // dense up to 1300 and around every power-of-two buffer size (total encodings cross 1024,
+    // 2048, ... a few dozen octets below the value size)
+    lens.extend(300..=1300);
+    for c in [2048usize, 4096, 8192, 16384, 32768, 65536, 131072] {
+        lens.extend(c - 90..=c + 16);
+    }
     if tier == Tier::Thorough {
-        lens.extend(300..=1100);
+        lens.extend(1300..=4200);
         lens.extend(16777200..=16777230);
     }
+    lens.sort_unstable();
+    lens.dedup();
     par_for(lens.len() as u64, |i| {
         let l = lens[i as usize];
         let s = "z".repeat(l);
